@@ -240,7 +240,12 @@ def run_case(ex, case):
     locs = case["locs"]
     for k in range(case["K"]):
         ops = c03.list_ops(st.defs, locs)
-        op = ops[ex.choose(len(ops))]
+        if k == 0 and case.get("first") is not None:
+            if case["first"] >= len(ops):
+                return
+            op = ops[case["first"]]
+        else:
+            op = ops[ex.choose(len(ops))]
         outs = []
         n0 = st.nv
         for w in (st, cp):
@@ -319,5 +324,11 @@ def cases(tier):
                 if k == 3 and n % 10:
                     continue
                 K = (2 if n % 120 == 0 else 1) if tier == "quick" else (2 if k == 3 else 3)
-                out.append({"mode": "hist", "build": b, "locs": LOCS, "defs": [list(c) for c in combo], "K": K})
+                if K >= 2:
+                    # work splitting: one case per first follow-up operation
+                    n_ops = len(c03.list_ops({t: c01._tup(d) for t, d in combo}, LOCS))
+                    for f in range(n_ops):
+                        out.append({"mode": "hist", "build": b, "locs": LOCS, "defs": [list(c) for c in combo], "K": K, "first": f})
+                else:
+                    out.append({"mode": "hist", "build": b, "locs": LOCS, "defs": [list(c) for c in combo], "K": K})
     return out
